@@ -646,6 +646,23 @@ class List(list, base.Symbolic, pg_typing.CustomTyping):
     """Returns a repeated Lit of self."""
     return self.__mul__(n)
 
+  def __iadd__(self, other: Iterable[Any]) -> 'List':
+    """In-place concatenation, which goes through `extend`."""
+    # NOTE: `list.__iadd__` would insert the items directly, bypassing the
+    # sealed flag, the value spec and the parent/path of the new children.
+    self.extend(other)
+    return self
+
+  def __imul__(self, n: int) -> 'List':
+    """In-place repetition, which goes through `clear`/`extend`."""
+    if n <= 0:
+      self.clear()
+    else:
+      items = list(self.sym_values())
+      for _ in range(n - 1):
+        self.extend(items)
+    return self
+
   def copy(self) -> 'List':
     """Shallow current list."""
     return List(super().copy(), value_spec=self._value_spec)
